@@ -109,6 +109,28 @@ def all_edges(p):
     return own, alle
 
 
+def glen_seconds(d):
+    """working seconds of a dependency's gaplength; a gapduration on the same edge wins (`if gapduration: … elif gaplength:`)"""
+    if not d.get("glen") or d.get("gap"):
+        return 0
+    return int(round(limit_hours(d["glen"]) * 3600))
+
+
+def len_edges(p):
+    """working-time gaps per task: {taskFullId: [(predFullId, workingSeconds, onstart)]} — own edges, those of every
+    enclosing container, and inverted `precedes`; only edges with a gaplength and no gapduration"""
+    ft = flat_tasks(p)
+    own = {fid: [] for fid, *_ in ft}
+    for fid, t, par, _ in ft:
+        for d in t.get("deps") or []:
+            if glen_seconds(d):
+                own[fid].append((d["target"], glen_seconds(d), bool(d.get("onstart"))))
+        for d in t.get("prec") or []:
+            if glen_seconds(d):
+                own[d["target"]].append((fid, glen_seconds(d), bool(d.get("onstart"))))
+    return {fid: list(own[fid]) + [e for a in ancestors(fid) for e in own[a]] for fid, *_ in ft}
+
+
 def effective_override(p, t, sid):
     """scenario-specific values of task node `t` in scenario `sid`: own, else inherited from the nearest
     enclosing scenario (nested scenarios inherit from their parent scenario)"""
